@@ -1,29 +1,36 @@
 /*@unit {
- 'kind': 'proof', 'mode': 'legacy', 'timeout': 100,
+ 'kind': 'proof', 'mode': 'legacy',
  'functions': ['ring_write', 'ring_putc', 'ring_full', 'ring_move_head_one'],
  'params': {'PART': [1, 2, 3]},
- 'clauses': 'for every RING(r), every buffer content, every source block of n bytes (n symbolic, loop closed by an injected invariant, ring_putc inlined as it is): returns min(n, room); head advances by that many single steps, tail and size unchanged, RING(r) preserved; buffer slot j holds source byte dist(old head, j) if that is below the result and its old value otherwise (PART 1: j arbitrary = exact frame, PART 2: j = slot(tail, k) = view\' is view followed by the accepted prefix of the source, every old element kept); reads only src[0..n), writes only inside the size-byte buffer',
+ 'clauses': 'for every RING(r), every buffer content, every source block of n bytes (n symbolic; the loop is closed by an injected invariant, ring_putc/ring_full/ring_move_head_one are the real inlined code): returns min(n, room); afterwards head is len + result single steps after tail (so the reference length grows by exactly the result), tail and size unchanged, RING(r) preserved; for an arbitrary position k counted from the tail: k < len => element k keeps slot and value, len <= k < len + result => element k is source byte k - len, every other slot of the buffer keeps its value (exact frame; nothing duplicated, nothing overwritten); the source is not modified; reads only src[0..n), writes only inside the size-byte buffer',
  'inject': [{'file': 'igris/datastruct/ring.h', 'func': 'ring_write', 'loop': 0, 'expect': 'size--',
-             'assigns': 'size, data, ret, r->head, __CPROVER_object_whole(buffer)',
+             'assigns': 'size, data, ret, r->head, __CPROVER_object_whole(buffer), g_h, g_P, g_hits, g_hit_at, g_hitP',
              'invariants': ['0 <= ret && (unsigned int)ret <= g_n && size == g_n - (unsigned int)ret',
-                            'g_len0 + (unsigned int)ret <= g_rsize - 1',
+                            'g_P == g_len0 + (unsigned int)ret',
+                            'g_P <= g_rsize - 1',
                             'data == g_data0 + ret',
                             'r->size == g_rsize && r->tail == g_tail0',
-                            'r->head == SPEC_RING_SLOT(g_tail0, g_len0 + (unsigned int)ret, g_rsize)',
-                            '(g_p >= g_len0 && g_p - g_len0 < (unsigned int)ret) ? buffer[g_j] == g_dv : buffer[g_j] == g_vj'],
-             'decreases': 'size'}],
+                            'r->head == SPEC_RING_SLOT(g_tail0, g_P, g_rsize)',
+                            'g_hits == 0 ? (buffer[g_j] == g_vj && !(g_p >= g_len0 && g_p < g_P)) : (g_hit_at < (unsigned int)ret && buffer[g_j] == g_data0[g_hit_at] && g_hitP == g_len0 + g_hit_at && g_hitP < g_P && g_j == SPEC_RING_SLOT(g_tail0, g_hitP, g_rsize))'],
+             'decreases': 'size'},
+            {'file': 'igris/datastruct/ring.h', 'func': 'ring_write', 'ghost': 'g_h = r->head;', 'at': 'body-begin', 'loop': 0},
+            {'file': 'igris/datastruct/ring.h', 'func': 'ring_write',
+             'ghost': 'if (g_h == g_j) { g_hits = 1; g_hit_at = (unsigned int)ret; g_hitP = g_P; } g_P = g_P + 1;',
+             'at': 'before', 'anchor': 'ret++;'}],
  'assumptions': ['RING(r)', 'buffer is an object of exactly r->size bytes, data an object of exactly n bytes',
-                 'r->size <= 2^31 for ring_write/ring_read: the result type is int, so a count above INT_MAX cannot be reported (ret++ would overflow)'],
+                 'r->size <= 2^31 for ring_write/ring_read: the result type is int, so a count above INT_MAX cannot be reported (ret++ would overflow)',
+                 'lemma cuts (C03_LEMMA): asserted, i.e. proved, in the same run before being assumed'],
  'witness': {'unwind': 8},
 } @*/
 #include "c03_ring.h"
-/* ghosts: entry values; everything is expressed in positions counted from the (fixed) tail:
-   the head is at position len0 + ret; one arbitrary position g_p < size, its slot
-   g_j = slot(tail, g_p), the old content g_vj of that slot and the source byte g_dv = src[g_p - len0]
-   that belongs there once it is written */
-uint g_n, g_tail0, g_rsize, g_len0, g_j, g_p;
+/* Ghosts.  Everything is expressed in positions counted from the (fixed) tail: the head is at
+   position g_P = len0 + ret (g_P is stepped by a ghost statement next to `ret++`).  One arbitrary
+   position g_p < size with its slot g_j = slot(tail, g_p) and the old content g_vj of that slot is
+   watched: the ghost statement records whether (g_hits), in which iteration (g_hit_at) and at
+   which head position (g_hitP) the loop stored into that slot (g_h = head before the ring_putc). */
+uint g_n, g_tail0, g_rsize, g_len0, g_j, g_p, g_h, g_P, g_hits, g_hit_at, g_hitP;
 const char *g_data0;
-char g_vj, g_dv;
+char g_vj;
 #include <igris/datastruct/ring.h>
 
 void harness(void)
@@ -32,11 +39,13 @@ void harness(void)
     WIT(uint, head);
     WIT(uint, tail);
     WIT(uint, n);
-    WIT(uint, k);              /* ghost position counted from the tail: every slot is slot(tail, k) for one k < size */
+    WIT(uint, k);              /* ghost position counted from the tail: every slot is slot(tail, k) for exactly one k < size */
+    WIT(uint, m);              /* ghost index into the source */
     WIT_ARR(char, content, 6);
     WIT_ARR(char, src, 6);
     __CPROVER_assume(size >= 2 && size <= VC_MAXOBJ && size <= 0x80000000u && head < size && tail < size);
     __CPROVER_assume(n <= VC_MAXOBJ);
+    __CPROVER_assume(k < size);
     struct ring_head r;
     r.size = size; r.head = head; r.tail = tail;
     char *buf = NEW_OBJ(size);
@@ -45,11 +54,10 @@ void harness(void)
     FILL(data, (size_t)n, src);
     uint len = spec_ring_len(head, tail, size);
     uint room = size - 1 - len;
-    __CPROVER_assume(k < size);
     uint j = spec_ring_slot(tail, k, size);
     g_n = n; g_tail0 = tail; g_rsize = size; g_len0 = len; g_data0 = data;
-    g_p = k; g_j = j; g_vj = buf[j]; g_dv = (k >= len && k - len < n) ? data[k - len] : 0;
-    WIT(uint, m);              /* ghost index into the source */
+    g_p = k; g_j = j; g_vj = buf[j]; g_P = len; g_hits = 0; g_hit_at = 0; g_hitP = 0; g_h = 0;
+    char src_k = (k >= len && k - len < n) ? data[k - len] : 0;
     char old_m = m < n ? data[m] : 0;
 
     int ret = ring_write(&r, buf, data, n);
@@ -57,17 +65,22 @@ void harness(void)
     uint want = n < room ? n : room;
     P1(__CPROVER_assert(ret >= 0 && (uint)ret == want, "ring_write returns min(n, room)");)
     P1(__CPROVER_assert(r.size == size && r.tail == tail && C03_RING_INV(r), "ring_write preserves RING(r), size and tail");)
-    P3(__CPROVER_assert(r.head == spec_ring_slot(head, want, size), "ring_write: head advanced by the number of bytes accepted");)
     P1(__CPROVER_assert(!(m < n) || data[m] == old_m, "ring_write does not modify the source");)
-    P2(__CPROVER_assert(spec_ring_len(r.head, r.tail, r.size) == len + want, "ring_write: reference length grows by the result");)
-    /* k is an arbitrary position counted from the tail, j = slot(tail, k) its slot: k < len are the
-       old elements, len <= k < len + result the new ones, the rest is outside the new view */
+    uint got = (uint)ret;      /* == want by the first clause */
+    P1(__CPROVER_assert(len + got <= size - 1 && r.head == spec_ring_slot(tail, len + got, size), "ring_write: head is len + result single steps after tail");)
+#if PART == 2 || PART == 0
+    C03_LEMMA(len + got <= size - 1 && r.head == spec_ring_slot(tail, len + got, size), "head is len + result single steps after tail");
+    __CPROVER_assert(spec_ring_len(r.head, r.tail, r.size) == len + got, "ring_write: reference length grows by the result");
+#endif
+#if PART == 3 || PART == 0
+    C03_LEMMA(g_hits == 0 || g_hitP == k, "a slot is stored into only when the head position equals its position (slot is injective)");
     if (k < len) {
-        P1(__CPROVER_assert(buf[spec_ring_slot(r.tail, k, size)] == g_vj, "ring_write: every old element keeps position and value");)
-    } else if (k - len < want) {
-        P1(__CPROVER_assert(buf[spec_ring_slot(r.tail, k, size)] == g_dv, "ring_write: element len+i of the new view is source byte i, i < result");)
+        __CPROVER_assert(buf[spec_ring_slot(r.tail, k, size)] == g_vj, "ring_write: every old element keeps position and value");
+    } else if (k - len < got) {
+        __CPROVER_assert(buf[spec_ring_slot(r.tail, k, size)] == src_k, "ring_write: element len+i of the new view is source byte i, i < result");
     } else {
-        P1(__CPROVER_assert(buf[j] == g_vj, "ring_write: no buffer byte outside the accepted block is changed");)
+        __CPROVER_assert(buf[j] == g_vj, "ring_write: no buffer byte outside the accepted block is changed");
     }
+#endif
     CANARY("ring_write end reachable");
 }
